@@ -163,6 +163,7 @@ class RecRng:
     def __init__(self, seed):
         self._g = np.random.default_rng(seed)
         self.choices = []
+        self.uniform_draws = []
 
     @property
     def bit_generator(self):
@@ -172,6 +173,16 @@ class RecRng:
         idx = self._g.choice(a, size=size, replace=replace, p=p, **kw)
         self.choices.append({"a": int(a) if np.isscalar(a) else len(a), "size": size, "replace": bool(replace),
                              "p": None if p is None else np.asarray(p, dtype=float).copy(), "idx": np.asarray(idx).copy()})
+        return idx
+
+    def integers(self, low, high=None, size=None, **kw):
+        # a uniform draw of indices: recorded apart (kernels may draw integers for their own purposes); a reader that expects a
+        # weighted selection reads it as one over `high - low` items with equal probabilities
+        idx = self._g.integers(low, high, size=size, **kw)
+        lo_, hi_ = (0, low) if high is None else (low, high)
+        if np.isscalar(lo_) and np.isscalar(hi_):
+            self.uniform_draws.append({"a": int(hi_) - int(lo_), "low": int(lo_), "size": size, "replace": True,
+                                       "p": np.full(max(int(hi_) - int(lo_), 0), 1.0 / max(int(hi_) - int(lo_), 1)), "idx": np.asarray(idx).copy()})
         return idx
 
     def __getattr__(self, k):
